@@ -93,7 +93,7 @@ func (g *Gate) waitFor(pred func() bool, d time.Duration) bool {
 	return true
 }
 
-const gateTimeout = 30 * time.Second
+const gateTimeout = 10 * time.Second
 
 // AwaitHeld waits until the applier holds a dequeued item.
 func (g *Gate) AwaitHeld() error {
@@ -108,6 +108,13 @@ func (g *Gate) Held() bool {
 	g.mu.Lock()
 	defer g.mu.Unlock()
 	return g.held
+}
+
+// Taken is the number of items the applier has dequeued so far.
+func (g *Gate) Taken() int {
+	g.mu.Lock()
+	defer g.mu.Unlock()
+	return g.taken
 }
 
 func (g *Gate) Applied() int {
